@@ -506,16 +506,29 @@ func (uv *UtxoVM) SubBalance(addr []byte, delta *big.Int) {
 	}
 }
 
+// ClearBalanceCache drops every cached balance and dirty mark. The two fields are read and
+// updated under mutexBalance by AddBalance / SubBalance / GetBalance, which run concurrently
+// with the walk that clears them, so they are replaced under that lock as well.
+func (uv *UtxoVM) ClearBalanceCache() {
+	uv.mutexBalance.Lock()
+	defer uv.mutexBalance.Unlock()
+	uv.BalanceCache = cache.NewLRUCache(uv.CacheSize)
+	uv.BalanceViewDirty = map[string]int{}
+}
+
 //获得一个账号的余额，inLock表示在调用此函数时已经对uv.mutex加过锁了
 func (uv *UtxoVM) GetBalance(addr string) (*big.Int, error) {
+	// the cache object itself is replaced by ClearBalanceCache (every walk): read the field
+	// under the same lock
+	uv.mutexBalance.Lock()
 	cachedBalance, ok := uv.BalanceCache.Get(addr)
 	if ok {
-		uv.log.Debug("hit getbalance cache", "addr", addr)
-		uv.mutexBalance.Lock()
 		balanceCopy := big.NewInt(0).Set(cachedBalance.(*big.Int))
 		uv.mutexBalance.Unlock()
+		uv.log.Debug("hit getbalance cache", "addr", addr)
 		return balanceCopy, nil
 	}
+	uv.mutexBalance.Unlock()
 	// 扫表填充cache期间不能有交易/区块正在执行: 它们先改cache里的余额再落盘, 如果扫到的是落盘前的数据,
 	// 而cache在它们改完余额之后才填充, 这笔变动就永远丢了
 	uv.Mutex.Lock()
